@@ -910,8 +910,12 @@ func (r *resolver) expandAugment(y *Augment, parent Meta) error {
 	}
 
 	for _, orig := range y.Actions() {
+		hasActions, valid := target.(HasActions)
+		if !valid {
+			return fmt.Errorf("%s - augment target %s cannot have actions", SchemaPath(y), y.ident)
+		}
 		d := orig.clone(target).(Definition)
-		if err := target.(HasActions).addAction(d.(*Rpc)); err != nil {
+		if err := hasActions.addAction(d.(*Rpc)); err != nil {
 			return err
 		}
 		if _, err := r.enter(d); err != nil {
@@ -920,8 +924,12 @@ func (r *resolver) expandAugment(y *Augment, parent Meta) error {
 	}
 
 	for _, orig := range y.Notifications() {
+		hasNotifs, valid := target.(HasNotifications)
+		if !valid {
+			return fmt.Errorf("%s - augment target %s cannot have notifications", SchemaPath(y), y.ident)
+		}
 		d := orig.clone(target).(Definition)
-		if err := target.(HasNotifications).addNotification(d.(*Notification)); err != nil {
+		if err := hasNotifs.addNotification(d.(*Notification)); err != nil {
 			return err
 		}
 		if _, err := r.enter(d); err != nil {
